@@ -406,7 +406,16 @@ pub fn gen_model(r: &mut Rng, cfg: &GenCfg) -> Model {
                     w.id,
                     WinPropsOverrides {
                         u_value: if r.chance(1, 2) { Some(r.grid(0.6, 5.7, 0.01)) } else { None },
-                        f_shobst: if r.chance(1, 2) { Some(r.grid(0.0, 1.0, 0.01)) } else { None },
+                        // boundary values matter: exactly 1 (nothing hidden) and exactly 0
+                        f_shobst: if r.chance(1, 2) {
+                            Some(match r.below(8) {
+                                0 | 1 => 1.0,
+                                2 => 0.0,
+                                _ => r.grid(0.0, 1.0, 0.01),
+                            })
+                        } else {
+                            None
+                        },
                     },
                 );
             }
@@ -519,6 +528,14 @@ pub fn add_unused(r: &mut Rng, m: &mut Model) -> usize {
             m.cons.wincons.insert(k, x);
             n += 1;
         }
+    }
+    // a space that owns no wall and is referred to only as the adjacent space of a wall: it is used
+    if !m.walls.is_empty() && r.chance(1, 2) {
+        let sp = Space { id: uid(r), name: "adjacent_only".into(), ..Default::default() };
+        let k = r.below(m.walls.len());
+        m.walls[k].next_to = Some(sp.id);
+        let at = ins(r, m.spaces.len());
+        m.spaces.insert(at, sp);
     }
     // unused space with its own private chain loads -> year -> week -> day
     if r.chance(2, 3) {
